@@ -39,8 +39,8 @@ type hostResult struct {
 func runC16(c *Ctx) error {
 	thorough := c.Tier == "thorough"
 	nfmt := envInt("VERIF_C16_FORMAT", 250)
-	nhost := envInt("VERIF_C16_HOSTS", 2)
-	hostLen := envInt("VERIF_C16_HOSTLEN", 150)
+	nhost := envInt("VERIF_C16_HOSTS", 6)
+	hostLen := envInt("VERIF_C16_HOSTLEN", 160)
 	ncomp := envInt("VERIF_C16_COMPILE", 25)
 	nso := 0
 	if thorough {
@@ -54,6 +54,25 @@ func runC16(c *Ctx) error {
 	defer pool.Close()
 	c.logf("format entry points: %d inputs x {-d, -f}", nfmt)
 	if err := ParallelFor(nfmt, c.Workers, func(i int) error { return c16Format(c, pool, i, thorough) }); err != nil {
+		return err
+	}
+	// boundary sweep: texts with about 2^7, 2^8 and 2^9 syntax errors (exit
+	// statuses are 8 bits wide, counters and buffers have favourite sizes)
+	var floods [][]byte
+	for _, snippet := range []string{"packet P%d { u8 }\n", "packet Q%d { , }\n"} {
+		for _, n := range []int{1, 2, 126, 127, 128, 129, 254, 255, 256, 257, 258, 511, 512, 513} {
+			var b strings.Builder
+			for k := 0; k < n; k++ {
+				fmt.Fprintf(&b, snippet, k)
+			}
+			floods = append(floods, []byte(b.String()))
+		}
+	}
+	if err := ParallelFor(len(floods), c.Workers, func(i int) error {
+		c.ev.Fire("error_flood_boundary_input", 1)
+		_, err := c16FormatOne(c, pool, 1000000+i, "flood", SubSeed(c.Seed, "flood", i), floods[i])
+		return err
+	}); err != nil {
 		return err
 	}
 	c.logf("library export: %d host histories of %d calls", nhost, hostLen)
@@ -452,7 +471,8 @@ func c16Host(c *Ctx, pool *Pool, i int, n int, realSO bool) error {
 	// property (and would abort a real C host, which cannot recover a Go panic)
 	refs := map[string]*Resp{}
 	for _, s := range pending {
-		in := FormatInput(s)
+		// the same token stream comes back under other white-space layouts
+		in := FormatInputLayout(s, r.Intn(4))
 		if bytes.Contains(in, []byte{0}) || len(in) > 400000 {
 			continue
 		}
@@ -741,7 +761,10 @@ var unrelated = []DiskEntry{
 func c16Compile(c *Ctx, pool *Pool, i int, thorough bool) error {
 	seed := SubSeed(c.Seed, "c16comp", i)
 	r := NewRng(seed)
-	prog := GenProg(seed)
+	prog := GenProgSized(seed, i%12 == 5) // every twelfth program is a big protocol (outputs beyond 64 KiB)
+	if i%12 == 5 {
+		c.ev.Fire("big_program", 1)
+	}
 	text := prog.Render()
 	// invocations: six single-target, four multi-target
 	var sets [][]string
@@ -809,6 +832,11 @@ func c16Compile(c *Ctx, pool *Pool, i int, thorough bool) error {
 					d = nd
 				}
 			}
+			if !shared && r.Chance(1, 10) {
+				// characters that flag parsers, CSV splitters and shells care about
+				d = r.Pick([]string{"build/codec,v2", "my out", "k=v", "输出", "a,b,c", "semi;colon", "quo'te"}) + "/" + t
+				c.ev.Fire("argv_odd_characters_in_dir", 1)
+			}
 			cc.dirs[t] = d
 			switch r.Intn(10) {
 			case 0:
@@ -854,6 +882,10 @@ func c16Compile(c *Ctx, pool *Pool, i int, thorough bool) error {
 			c.ev.Fire("disk0_shared_output_dir", 1)
 		}
 		// timestamps: the DSL may be older or newer than what is already in the output directories
+		staleKind := r.Intn(5)
+		if r.Chance(1, 2) {
+			staleKind = 0 // half of the stale worlds use uniformly longer files
+		}
 		dslAge, staleAge := 0, 0
 		switch r.Intn(3) {
 		case 0:
@@ -870,7 +902,7 @@ func c16Compile(c *Ctx, pool *Pool, i int, thorough bool) error {
 				cf := cleanFiles(&st)
 				for _, n := range sortedFileNames(cf) {
 					f := cf[n]
-					disk = append(disk, DiskEntry{Path: under(cc.dirs[st.Target], n), Kind: "file", AgeSec: staleAge, Data: append(append([]byte("STALE STALE STALE\n"), f.Data...), []byte("\ntrailing stale bytes that must disappear\n")...)})
+					disk = append(disk, DiskEntry{Path: under(cc.dirs[st.Target], n), Kind: "file", AgeSec: staleAge, Stale: true, Data: staleVariant(f.Data, staleKind+len(disk))})
 				}
 				disk = append(disk, DiskEntry{Path: under(cc.dirs[st.Target], "unrelated_old_file.txt"), Kind: "file", Data: []byte("old\n")})
 			}
@@ -1061,7 +1093,7 @@ func (c *Ctx) candidate16Compile(caseIdx int, prog *Prog, cc *compileCase, disk 
 		for _, e := range disk {
 			if e.Path == "in.dsl" {
 				e.Data = []byte(p.Render())
-			} else if !keepStale && strings.Contains(string(e.Data), "STALE") {
+			} else if !keepStale && e.Stale {
 				continue
 			}
 			d = append(d, e)
